@@ -303,7 +303,7 @@ def components():
             "numpy / pandas / pyarrow / polars / numba",
         ],
         "stub": [
-            "concurrent.futures.ThreadPoolExecutor / as_completed / wait as seen from groupby_lib.* (gbsim.executor: discrete-event, task-atomic)",
+            "concurrent.futures.ThreadPoolExecutor / as_completed / wait as seen from groupby_lib.* (gbsim.executor: discrete-event task-atomic model, and a pre-emptive model with real task threads of which the simulator lets exactly one run at a time)",
             "os.cpu_count / multiprocessing.cpu_count as seen from groupby_lib.*",
             "literals: THRESHOLD_FOR_CHUNKED_FACTORIZE (module global), 1_000_000 in _max_threads_for_numba"
             + (" (AST-rescaled)" if STATE["rescaled_rows_per_thread"] else " (NOT rescaled: literal not found)"),
@@ -315,6 +315,6 @@ def components():
         ],
         "not_owned": [
             "numba prange schedule inside reduce_array_pair / arr_is_null / _nb_dot (thread count only)",
-            "pre-emption inside a task body (tasks are atomic; shared writes are monitored, not interleaved)",
+            "pre-emption inside a compiled kernel or a pandas / NumPy call (atomic model: whole task bodies are atomic; pre-emptive model, one fault-free run in three: task bodies run in real threads holding one baton and are pre-empted at line events of groupby_lib frames; shared writes of kernels are monitored, not interleaved)",
         ],
     }
